@@ -461,6 +461,16 @@ func (vlog *valueLog) dropAll() (int, error) {
 	return count, nil
 }
 
+// storedThreshold is the threshold that decides how much room an entry takes and whether its value
+// goes to the value log. In InMemory mode there is no value log: every accepted value, also one as
+// large as the value threshold (which only limits the value size there), is stored in the LSM tree.
+func (db *DB) storedThreshold() int64 {
+	if db.opt.InMemory {
+		return math.MaxInt64
+	}
+	return db.valueThreshold()
+}
+
 func (db *DB) valueThreshold() int64 {
 	return db.threshold.valueThreshold.Load()
 }
